@@ -162,6 +162,7 @@ var seedExpectations = []seedExpect{
 	{"user-function-shadow", "C19", "call.usershadow", "lowerCall"},
 	{"local-const-shadow", "C08", "lookup.innerfirst", "evalConstantIdent"},
 	{"local-const-shadow", "C11", "lookup.innerfirst", "evalConstantIdent"},
+	{"spirv-restrict-ones-type", "C02", "constcomposite.component", "emitImageLoadRestrict"},
 	{"glsl-vector-select", "C05", "select.condshape", "writeSelect"},
 	{"glsl-image-atomic-coord", "C05", "image.coordbuilder", "writeImageAtomic"},
 	{"glsl-shallow-feature-scan", "C05", "walker.shallow", "scanStatementsForFeatures"},
